@@ -130,7 +130,7 @@ def real_run(item, w):
     kind, alpha, n, dt = item["kind"], item["alphabet"], item["n"], item["dtype"]
     with _disable_current_modes():
         ch = mk(kind, float(w["p"]))
-        b = torch.tensor(w["b"], dtype=getattr(torch, dt))
+        b = torch.tensor(w["b"]).to(getattr(torch, dt))
         x = 2 * b - 1 if alpha == "bipolar" else b
         x0 = x.clone()
         us = list(w["u"])
@@ -207,7 +207,7 @@ def all_items():
     for kind in ("bsc", "bec", "z"):
         for alpha in ("binary", "bipolar"):
             for p in ("sym", 0.0, 1.0):
-                for dt in ("float32", "int64") if p == "sym" else ("float32",):
+                for dt in (("float32", "int64", "bool", "uint8") if alpha == "binary" else ("float32", "int64")) if p == "sym" else ("float32",):
                     if kind == "bec" and alpha == "bipolar":
                         continue   # the default erasure symbol -1 collides with the bipolar alphabet: outside the statement
                     it = dict(kind=kind, alphabet=alpha, n=n if kind != "z" else min(n, 5), dtype=dt, p=p)
@@ -232,7 +232,7 @@ def main():
     items = all_items()
     import kaira.channels.digital as D
     ck.encoded(D.BinarySymmetricChannel.forward, D.BinaryErasureChannel.forward, D.BinaryZChannel.forward)
-    ck.bound("inputs", f"n = {tier(4, 6)} symbols (Z channel: <= 5, one path per input pattern), both alphabets, float32 and int64 inputs; p symbolic in [0,1] plus the constants 0 and 1; uniform draws symbolic in [0,1)")
+    ck.bound("inputs", f"n = {tier(4, 6)} symbols (Z channel: <= 5, one path per input pattern), both alphabets, float32, int64, bool and uint8 inputs; p symbolic in [0,1] plus the constants 0 and 1; uniform draws symbolic in [0,1)")
     ck.stub("torch.rand_like -> fresh symbolic reals in [0,1), logged in generation order (the generator itself is trusted to be i.i.d. uniform)")
     ck.assume("'independently with probability p' is decided as: output position i is a function of x_i and of its own draw only, hit exactly when u < p; the empirical rate of >= 10^6 real draws is a statement about torch's RNG (outside the claim)")
     ck.assume("bipolar inputs contain at least one -1 (documented recognition rule); BEC with bipolar input is excluded because the default erasure symbol is -1")
